@@ -231,7 +231,7 @@ func TestC02(t *testing.T) {
 			}
 		}
 		b, got, dec, err := wireCheck(v, nmCopy)
-		if err == nil && len(b) > 200 && len(b) < 4000 && rapid.IntRange(0, 99).Draw(rt, "gcStress") == 0 {
+		if err == nil && len(b) > 200 && len(b) < 4000 && rapid.IntRange(0, 299).Draw(rt, "gcStress") == 0 {
 			err = gcCheck(v, copyNames(nm), b)
 			r.Label("gc-between-writes")
 		}
